@@ -245,8 +245,13 @@ def extract_iter(
         else:
             # Only inserting new items into the stack trace; next_inner is
             # already at the front of `to_unwrap` (if it exists at all), so
-            # leave it there, at its own depth, and insert the rest before it
+            # leave it there and insert the rest before it. If it is nested
+            # more deeply than this frame, bring it out to this frame's depth
+            # so that a PRUNE issued from within the inserted items doesn't
+            # remove it; if it is further out already, it stays where it is.
             items = items[:-1]
+            if to_unwrap and to_unwrap[0][2] > depth:
+                to_unwrap.appendleft((*to_unwrap.popleft()[:2], depth))
         for item in reversed(items):
             to_unwrap.appendleft((better_origin(item, None), item, depth))
 
